@@ -18,6 +18,13 @@
  * verifies registers and a stack array after every return, and keeps a per-thread owner word (cleared before the
  * yield, test-and-set after it): finding it already set means the thread runs on two workers at once.  A crash
  * (SIGSEGV/SIGBUS/SIGABRT) prints a `CRASH` line from an alternate signal stack and exits with status 3.
+ * FP control state (c03_probe <nthreads> <iters> <seed> fp; separate process): every thread sets its own MXCSR control
+ * bits and x87 control word, makes a switching call (yield / create child-first / create parent-first + join /
+ * contended mutex) while siblings and children set other patterns on the same worker, and reads them back.
+ * Output `fp mode=fp ... mxcsr_bad=.. x87_bad=..`; exit status 0 (the verdict is taken from the counters).
+ * Main mode: every other probe thread and half of the children are created parent-first; the hook samples rsp
+ * alignment in the first function of a new stack (create.start: myth_create_1 / myth_entry_point) and inside the
+ * scheduler loop (sched.run); the counters are printed on the line before the last.
  * Last line of output:
  *   ok|FAIL threads=.. ops=.. switches_cb=.. migrations=.. reg_bad=.. stack_bad=.. cb_misaligned=.. entry_misaligned=.. first=<description>
  */
@@ -36,6 +43,7 @@
 #define CHILD_WORDS 256
 
 static long g_cb_enter, g_cb_misaligned, g_entry, g_entry_misaligned;
+static long g_first_cf, g_first_cf_mis, g_first_pf, g_first_pf_mis, g_sched, g_sched_mis;   /* first function on a stack / scheduler loop */
 static long g_reg_bad, g_stack_bad, g_ops, g_migr, g_children;
 static long g_hint_cases, g_hint_overlap, g_hint_bad, g_hint_local_bad;
 static volatile uintptr_t g_last_stk;
@@ -53,7 +61,24 @@ static void note_first(const char *what, int tid, int op, long idx, uint64_t exp
 /* the hook: called from inside the library (possibly on a stack that is being switched to) */
 static void hook(int kind, const char *id, const void *obj, long val) {
   if (kind == MYTH_VERIF_KIND_EVENT && id[0] == 'a' && !strcmp(id, "alloc.stack")) g_last_stk = (uintptr_t)obj;
+  if (kind == MYTH_VERIF_KIND_EVENT && id[0] == 's' && !strcmp(id, "sched.run")) {
+    /* inside myth_sched_loop, i.e. on the scheduler's own stack, entered through a voidcall context */
+    __sync_fetch_and_add(&g_sched, 1);
+    if ((uintptr_t)__builtin_frame_address(0) % 16 != 0) {
+      __sync_fetch_and_add(&g_sched_mis, 1);
+      note_first("scheduler loop runs with misaligned rsp", -3, -1, 0, 0, (uintptr_t)__builtin_frame_address(0));
+    }
+  }
   if (kind == MYTH_VERIF_KIND_EVENT && id[0] == 'c' && id[1] == 'r' && !strcmp(id, "create.start")) {
+    /* val 1: inside myth_create_1 (child-first: first function on a fresh empty context);
+       val 0: inside myth_entry_point (parent-first: first function of a voidcall context) */
+    uintptr_t fp0 = (uintptr_t)__builtin_frame_address(0);
+    __sync_fetch_and_add(val ? &g_first_cf : &g_first_pf, 1);
+    if (fp0 % 16 != 0) {
+      __sync_fetch_and_add(val ? &g_first_cf_mis : &g_first_pf_mis, 1);
+      note_first(val ? "first function of a child-first thread (myth_create_1) entered with misaligned rsp"
+                     : "first function of a parent-first thread (myth_entry_point) entered with misaligned rsp", -4, (int)val, 0, 0, fp0);
+    }
     /* the new thread has just been entered and has not been suspended yet: context.rsp is the initial one */
     int k = __sync_fetch_and_add(&g_init_n, 1) % 64;
     g_init_rsp[k].rsp = (uintptr_t)((const struct myth_thread *)obj)->context.rsp;
@@ -141,7 +166,11 @@ static void do_op(void *a) {
   case 2: {
     void *res = 0;
     uint64_t key = c->rnd | 1;
-    myth_thread_t th = myth_create(child, (void *)(uintptr_t)key);
+    myth_thread_t th;
+    myth_thread_attr_t attr;
+    myth_thread_attr_init(&attr);
+    attr.child_first = (int)((c->rnd >> 1) & 1);          /* half of the children parent-first */
+    myth_create_ex(&th, &attr, child, (void *)(uintptr_t)key);
     myth_join(th, &res);
     if ((uint64_t)(uintptr_t)res != (key ^ 0x5555)) { __sync_fetch_and_add(&g_reg_bad, 1); note_first("join result wrong", c->tid, 2, 0, key ^ 0x5555, (uint64_t)(uintptr_t)res); }
     break; }
@@ -325,6 +354,65 @@ static void *ystorm(void *a) {
   return 0;
 }
 
+
+/* ---------------- floating-point control state ---------------- */
+/* MXCSR control bits: exception masks 7-12, rounding 13-14, FZ 15, DAZ 6 (status flags 0-5 excluded);
+   x87 control word: exception masks 0-5, precision 8-9, rounding 10-11 */
+#define MXCSR_CTL 0xFFC0u
+#define X87_CTL   0x0F3Fu
+static long g_fp_checks, g_fp_mx_bad, g_fp_x87_bad, g_fp_by_op[4], g_fp_bad_by_op[4], g_fp_migr_bad;
+static inline void fp_set(unsigned mx, unsigned short cw) { __asm__ volatile("ldmxcsr %0\n\tfldcw %1" : : "m"(mx), "m"(cw)); }
+static inline void fp_get(unsigned *mx, unsigned short *cw) { __asm__ volatile("stmxcsr %0\n\tfnstcw %1" : "=m"(*mx), "=m"(*cw)); }
+static void fp_pattern(int k, unsigned *mx, unsigned short *cw) {
+  /* all exceptions masked (no SIGFPE); rounding mode k&3 in both units, FZ / DAZ and x87 precision vary with k */
+  *mx = 0x1F80u | ((unsigned)(k & 3) << 13) | ((k & 4) ? 0x8000u : 0) | ((k & 8) ? 0x0040u : 0);
+  *cw = (unsigned short)(0x003Fu | ((unsigned)(k & 3) << 10) | ((k & 4) ? 0x0300u : 0x0200u));
+}
+static void *fp_child(void *a) {
+  unsigned mx; unsigned short cw;
+  fp_pattern((int)(intptr_t)a, &mx, &cw);
+  fp_set(mx, cw);                                   /* the other thread changes the worker's control state ... */
+  myth_yield();
+  return 0;                                         /* ... and finishes without restoring it */
+}
+static void *fp_thread(void *a) {
+  int tid = (int)(intptr_t)a;
+  uint64_t st = mix(g_seed * 31337ull + tid);
+  unsigned mx0, mx, gmx; unsigned short cw0, cw, gcw;
+  long i;
+  fp_get(&mx0, &cw0);
+  for (i = 0; i < g_iters; i++) {
+    int op, k, w0, w1;
+    st = mix(st);
+    op = (int)(st % 4); k = (int)((st >> 8) % 16);
+    fp_pattern((tid & 3) | (k & 12), &mx, &cw);     /* this thread's own pattern: rounding mode = tid mod 4 */
+    fp_set(mx, cw);
+    w0 = myth_get_worker_num();
+    switch (op) {
+    case 0: myth_yield(); break;
+    case 1: { myth_thread_t c = myth_create(fp_child, (void *)(intptr_t)((tid + 1) & 3)); myth_join(c, 0); break; }   /* child-first: runs at once on this worker */
+    case 2: { myth_thread_attr_t at; myth_thread_t c; myth_thread_attr_init(&at); at.child_first = 0;
+              myth_create_ex(&c, &at, fp_child, (void *)(intptr_t)((tid + 2) & 3)); myth_join(c, 0); break; }          /* parent-first: join blocks */
+    case 3: myth_mutex_lock(&g_mtx); myth_yield(); myth_mutex_unlock(&g_mtx); break;                                  /* contended mutex */
+    }
+    w1 = myth_get_worker_num();
+    fp_get(&gmx, &gcw);
+    __sync_fetch_and_add(&g_fp_checks, 1);
+    __sync_fetch_and_add(&g_fp_by_op[op], 1);
+    if ((gmx & MXCSR_CTL) != (mx & MXCSR_CTL)) {
+      __sync_fetch_and_add(&g_fp_mx_bad, 1); __sync_fetch_and_add(&g_fp_bad_by_op[op], 1);
+      if (w0 != w1) __sync_fetch_and_add(&g_fp_migr_bad, 1);
+      note_first("MXCSR control bits changed across a switching call (op: 0 yield 1 create child-first 2 create parent-first+join 3 contended mutex)", tid, op, i, mx & MXCSR_CTL, gmx & MXCSR_CTL);
+    }
+    if ((gcw & X87_CTL) != (cw & X87_CTL)) {
+      __sync_fetch_and_add(&g_fp_x87_bad, 1);
+      note_first("x87 control word changed across a switching call", tid, op, i, cw & X87_CTL, gcw & X87_CTL);
+    }
+  }
+  fp_set(mx0, cw0);
+  return 0;
+}
+
 static char g_altstack[65536];
 static void on_crash(int sig) {
   char buf[200];
@@ -351,8 +439,22 @@ int main(int argc, char **argv) {
   if (g_n < 1) g_n = 1;
   if (argc > 4) g_mode = argv[4];
   install_crash_handler();
-  g_myth_verif_cb = hook;
+  if (!strcmp(g_mode, "main")) g_myth_verif_cb = hook;   /* the fp and yield modes run without the hook */
   myth_init();
+  if (!strcmp(g_mode, "fp")) {
+    /* separate process: the integer / stack / alignment probe is never run with a modified control state */
+    g_myth_verif_cb = 0;
+    myth_mutex_init(&g_mtx, 0);
+    th = calloc(g_n, sizeof *th);
+    for (i = 0; i < g_n; i++) th[i] = myth_create(fp_thread, (void *)(intptr_t)i);
+    for (i = 0; i < g_n; i++) myth_join(th[i], 0);
+    printf("fp mode=fp threads=%d checks=%ld mxcsr_bad=%ld x87_bad=%ld bad_after_migration=%ld checks_by_op=%ld,%ld,%ld,%ld mxcsr_bad_by_op=%ld,%ld,%ld,%ld first=%s\n",
+           g_n, g_fp_checks, g_fp_mx_bad, g_fp_x87_bad, g_fp_migr_bad, g_fp_by_op[0], g_fp_by_op[1], g_fp_by_op[2], g_fp_by_op[3],
+           g_fp_bad_by_op[0], g_fp_bad_by_op[1], g_fp_bad_by_op[2], g_fp_bad_by_op[3], g_first_set ? g_first : "-");
+    fflush(stdout);
+    myth_fini();
+    return 0;
+  }
   if (!strcmp(g_mode, "yield")) {
     g_myth_verif_cb = 0;      /* no hook here: the storm must run at full speed (alignment is sampled in the main mode) */
     /* batches: one worker creates nthreads short threads that rotate through ITS run queue with yields of every
@@ -384,11 +486,19 @@ int main(int argc, char **argv) {
   g_pairs = calloc((g_n + 1) / 2, sizeof(pair_t));
   for (i = 0; i < (g_n + 1) / 2; i++) { myth_mutex_init(&g_pairs[i].m, 0); myth_cond_init(&g_pairs[i].c, 0); }
   th = calloc(g_n, sizeof *th);
-  for (i = 0; i < g_n; i++) th[i] = myth_create(probe, (void *)(intptr_t)i);
+  for (i = 0; i < g_n; i++) {
+    myth_thread_attr_t attr;
+    myth_thread_attr_init(&attr);                 /* global default: child-first unless MYTH_CHILD_FIRST=0 */
+    if (i % 2) attr.child_first = 0;              /* every other probe thread parent-first */
+    myth_create_ex(&th[i], &attr, probe, (void *)(intptr_t)i);
+  }
   for (i = 0; i < g_n; i++) myth_join(th[i], 0);
   g_myth_verif_cb = 0;
   {
-    int bad = g_reg_bad || g_stack_bad || g_cb_misaligned || g_entry_misaligned || g_hint_overlap || g_hint_bad || g_hint_local_bad;
+    int bad = g_reg_bad || g_stack_bad || g_cb_misaligned || g_entry_misaligned || g_hint_overlap || g_hint_bad || g_hint_local_bad
+              || g_first_cf_mis || g_first_pf_mis || g_sched_mis;
+    printf("first_child_first=%ld first_child_first_misaligned=%ld first_parent_first=%ld first_parent_first_misaligned=%ld sched_loop_samples=%ld sched_loop_misaligned=%ld\n",
+           g_first_cf, g_first_cf_mis, g_first_pf, g_first_pf_mis, g_sched, g_sched_mis);
     printf("%s threads=%d ops=%ld children=%ld switches_cb=%ld entries=%ld migrations=%ld reg_bad=%ld stack_bad=%ld cb_misaligned=%ld entry_misaligned=%ld hint_cases=%ld hint_overlap=%ld hint_bad=%ld hint_local_bad=%ld first=%s\n",
            bad ? "FAIL" : "ok", g_n, g_ops, g_children, g_cb_enter, g_entry, g_migr, g_reg_bad, g_stack_bad,
            g_cb_misaligned, g_entry_misaligned, g_hint_cases, g_hint_overlap, g_hint_bad, g_hint_local_bad,
